@@ -129,11 +129,14 @@ pub fn public_key_der_from_cose_key(key: &CoseKey) -> Result<Bytes, Ctap2Error> 
         return Err(Ctap2Error::CborUnexpectedType);
     };
 
-    let point = EncodedPoint::from_affine_coordinates(
-        GenericArray::from_slice(x.as_slice()),
-        GenericArray::from_slice(y.as_slice()),
-        false,
-    );
+    // The coordinates must be exactly the size of a field element.
+    let (Some(x), Some(y)) = (
+        GenericArray::from_exact_iter(x.iter().copied()),
+        GenericArray::from_exact_iter(y.iter().copied()),
+    ) else {
+        return Err(Ctap2Error::InvalidCredential);
+    };
+    let point = EncodedPoint::from_affine_coordinates(&x, &y, false);
     let Some(pub_key): Option<PublicKey> = PublicKey::from_encoded_point(&point).into() else {
         return Err(Ctap2Error::InvalidCredential);
     };
